@@ -51,7 +51,23 @@ def gen_node(rng, depth, labs, uni, force_gate=False):
     return {"t": "gate", "g": g, "args": [gen_node(rng, depth - 1, labs, uni) for _ in range(n)]}
 
 
+def gen_wide(rng, tier):
+    """one expression per run whose intermediate polynomials have several hundred terms: a parity over ten labels, or a XOR
+    of a wide OR with a product.  The model needs about five minutes for such a polynomial (unary label codes), so in the
+    quick tier the case is judged by the truth-table oracle alone and only the thorough tier sends it to the model"""
+    labs = rng.sample(range(12), 10)
+    L = lambda l: {"t": "lbl", "l": C.enc(l)}
+    if rng.random() < 0.6:
+        tree = {"t": "gate", "g": rng.choice(["XOR", "XNOR"]), "args": [L(l) for l in labs]}
+    else:
+        tree = {"t": "gate", "g": "XOR", "args": [{"t": "gate", "g": "OR", "args": [L(l) for l in labs[:9]]},
+                                                   {"t": "gate", "g": "AND", "args": [{"t": "gate", "g": "NOT", "args": [L(labs[0])]}, L(labs[9])]}]}
+    return {"tree": tree, "wide": True, "nocoq": tier == "quick"}
+
+
 def gen(rng, i, tier):
+    if i == 23:
+        return gen_wide(rng, tier)
     uni = rng.choice(['int', 'pool'])
     labs = G.labels(rng, uni, rng.randint(1, 5))
     d = rng.randint(1, 3 if tier == "quick" else 4)
@@ -77,7 +93,7 @@ def pyeval(n, leaves):
 
 def twin_ok(case):
     # also run under the second label decoding (common.twin_labels); Matrix kinds index by int
-    return C.no_matrix(case)
+    return C.no_matrix(case) and not case.get("wide")
 
 
 def run_impl(case):
@@ -121,6 +137,8 @@ def lit(n):
 
 
 def literal(case, out):
+    if case.get("nocoq"):
+        return None
     if "error" in out:
         exp = "OErr %s" % out["error"]
     else:
@@ -188,7 +206,7 @@ def oracle(case, out):
     if out.get("again"):
         v.append(out["again"])
     labs = sorted(labels_of(tree, set()))
-    if len(labs) > 8:
+    if len(labs) > (10 if case.get("wide") else 8):
         return v
     for bits in itertools.product((0, 1), repeat=len(labs)):
         x = dict(zip(labs, bits))
@@ -211,4 +229,6 @@ def nontrivial(case, out):
 
 def tags(case, out):
     t = ["root:" + case["tree"]["g"], "depth:%d" % depth(case["tree"]), "result:" + (out.get("error") or out["kind"])]
+    if case.get("wide"):
+        t.append("ten-variables-several-hundred-terms:" + ("oracle-only" if case.get("nocoq") else "with-model"))
     return t
